@@ -29,12 +29,17 @@ Toks == [ser : Sers,
          algAt : {"protected", "unprotected", "nowhere"},
          keyAlg : {"absent", "same", "other"},          \* alg pinned on the caller's key
          sig : {"over_SI", "over_reencoded_SI", "over_other_payload", "garbage", "wrong_length"},
-         alg : {"EdDSA", "ES256", "ES256K"}]
+         alg : {"EdDSA", "ES256", "ES256K"},
+         \* general serialization only: the entry under test is preceded by another (valid) signature entry whose
+         \* protected header agrees / disagrees on b64.  Every entry is decoded under ITS OWN protected header: what
+         \* precedes it changes nothing below.
+         before : {"nothing", "entry_same_b64", "entry_other_b64"}]
 
 \* compact has no unprotected header and no "missing" payload member (the segment is always there)
 Shaped(t) == /\ (t.ser = "compact" => (t.algAt # "unprotected" /\ t.attached # "missing"))
              \* re-encoding only differs from the received bytes when the received header is not canonical
              /\ (t.sig = "over_reencoded_SI" => t.shape = "noncanonical")
+             /\ (t.before # "nothing" => t.ser = "general")
 
 OnePayload(t) == (t.attached = "present") # t.detached        \* exactly one source
 
